@@ -315,7 +315,9 @@ class Ctx:
             r = fn()
         except (core.Abort, core.Concretised, Reject):
             raise
-        except exc:
+        except exc as e:
+            if self.sym and not _raised_by_repo_or_contract(e):
+                raise core.Concretised(f"engine-level exception inside expect_raise: {type(e).__name__}: {e}")
             if not self.sym: self.numchecks += 1
             else: self.obls.append(Obl(name, self._hyps(), z3.BoolVal(True), None, note, 'raises'))
             return True
@@ -328,8 +330,20 @@ class Ctx:
         except (core.Abort, core.Concretised, Reject):
             raise
         except Exception as e:
+            if self.sym and not _raised_by_repo_or_contract(e):
+                raise core.Concretised(f"engine-level exception inside no_raise: {type(e).__name__}: {e}")
             self.fail(name, f"raised {type(e).__name__}: {e} {note}")
             return None
+
+
+def _raised_by_repo_or_contract(e):
+    """innermost Python frame of the traceback lies in the repository under verification or in a contract stub"""
+    tb = e.__traceback__; last = None
+    while tb is not None: last = tb; tb = tb.tb_next
+    if last is None: return True
+    fn = os.path.abspath(last.tb_frame.f_code.co_filename)
+    repo = os.path.abspath(os.environ.get('VERIF_REPO', '/repo'))
+    return fn.startswith(repo + os.sep) or (os.sep + 'contracts' + os.sep) in fn
 
 
 def _b(c):
